@@ -404,9 +404,25 @@ fn main() {
         if kid.is_none() {
             kid = Some(spawn_kid());
         }
+        let mut got = {
+            let k = kid.as_mut().unwrap();
+            let sent = writeln!(k.stdin, "{}", line).and_then(|_| k.stdin.flush());
+            if sent.is_err() { Err(RecvTimeoutError::Disconnected) } else { k.rx.recv_timeout(timeout) }
+        };
+        if let Err(RecvTimeoutError::Timeout) = got {
+            // a loaded machine can delay even a trivial case: before calling it a hang, run the case once more in a
+            // fresh worker with four times the limit (a real hang costs 5 x the limit, a false alarm costs a verdict)
+            {
+                let k = kid.as_mut().unwrap();
+                let _ = k.child.kill();
+                let _ = k.child.wait();
+            }
+            kid = Some(spawn_kid());
+            let k = kid.as_mut().unwrap();
+            let sent = writeln!(k.stdin, "{}", line).and_then(|_| k.stdin.flush());
+            got = if sent.is_err() { Err(RecvTimeoutError::Disconnected) } else { k.rx.recv_timeout(timeout * 4) };
+        }
         let k = kid.as_mut().unwrap();
-        let sent = writeln!(k.stdin, "{}", line).and_then(|_| k.stdin.flush());
-        let got = if sent.is_err() { Err(RecvTimeoutError::Disconnected) } else { k.rx.recv_timeout(timeout) };
         let (res, verdict) = match got {
             Ok(reply) => {
                 if let Some((r, msg)) = reply.split_once('\t') {
